@@ -297,6 +297,11 @@ theorem trail_absDocSecs_loose (ws : Char → Bool) {items' items : List DocItem
         subst heq
         simp only [absDocSecs]
         exact ih _ _ hb _ _ hc num
+      | para lines =>
+        subst heq
+        simp only [absDocSecs]
+        apply ih _ _ hb
+        exact ⟨hc.1, LRel.append hc.2 (LRel.refl_of (LooseContent.refl ws) _)⟩
     · simp only [absDocSecs]
       obtain ⟨h1, h2⟩ := trail_segs_loose ws hs b' b hb
       apply ih _ _ (by rw [trail_comps_append, trail_comps_append, hb, h2])
